@@ -25,6 +25,7 @@ EXPLANATION = (
     "numbers of order types proven / undecided are reported. Elementwise safety of every kernel is C02/V1; operators are applied to the "
     "operands only after scalar() coercion (V8); kernels are pure (K1)"
     "; every kernel returns the broadcast shape of its operands and never reduces over, indexes away or concatenates along an operand's dimension (V9 on the shape lattice)"
+    "; H10 / H8 - no kernel writes into what it is handed or returns cached storage; scalar() yields plain arrays (V8)"
 )
 ASSUMPTIONS = [
     "real arithmetic: floating-point rounding (e.g. of a+b near 1) is not modelled",
